@@ -14,6 +14,12 @@
        (the embedded struct itself is not recorded);
      - otherwise the field is recorded in Meta.Fields iff value.CanSet().
 
+   Domain restriction (observed on the real code, outside the property): [implicit] is only used for
+   by-value fields. An UNTAGGED NIL POINTER field whose element type implements ConfigurationProperties with a
+   value receiver makes the prefix processor's ExtractHandler call Prefix() through the nil pointer; the panic
+   happens in a goroutine of applyDefinitionRegistryPostProcessors and kills the process (it cannot be recovered
+   around App.Run). Such fields are not generated; the case is recorded in known_findings.d/C11.json.
+
    Definitions only; proofs live in Proofs/ScanProofs.v. *)
 From Coq Require Export List String Bool.
 Export ListNotations.
